@@ -326,13 +326,21 @@ def job_resid(rng, name, nd, per, small):
     tol = rng.choice([1e-4, 1e-6, 1e-6, 1e-8])
     itmax = 10000
     lines = head_text(name, dims, smoothed, full, mins, 1)
+    warm = rng.random() < 0.4
+    if warm:
+        # the same object integrates other data first (same cells, other values) and keeps that surface as the starting
+        # point of the second solution, as when new data arrive between two integrations: the second solution must
+        # satisfy the equation for the NEW data to the same tolerance
+        fac = np.array([[rng.uniform(0.2, 1.8) for _ in range(sums.shape[-1])] for _ in range(counts.size)]).reshape(sums.shape)
+        lines += load_text(dims, counts, sums * fac)
+        lines += ["setdiv", "integrate %d %s w" % (itmax, fnum(tol))] + (["minzero"] if rng.random() < 0.3 else [])
     lines += load_text(dims, counts, sums)
-    lines += ["setdiv", "div d", "zero", "integrate %d %s s" % (itmax, fnum(tol)), "atimes s"]
+    lines += ["setdiv", "div d"] + ([] if warm else ["zero"]) + ["integrate %d %s s" % (itmax, fnum(tol)), "atimes s"]
     if small:
         lines += ["multicol m"]
     lines += ["end"]
     return dict(law="resid", name=name, dims=dims, tol=tol, itmax=itmax, smoothed=smoothed, full=full, mins=mins,
-                small=bool(small), density=density, text="\n".join(lines) + "\n", counts=counts.tolist(), sums=sums.tolist())
+                small=bool(small), density=density, warm=warm, text="\n".join(lines) + "\n", counts=counts.tolist(), sums=sums.tolist())
 
 
 def jobs_conv(rng, fam, nd, per, thorough):
@@ -650,11 +658,11 @@ def eval_resid(job, events):
             return res
         res.append(("ok", "", "", ("resid", D, P, "divergence_formula:" + cls)))
     if r_code > bound:
-        res.append(("viol", "resid:%s:%s:%s:own_operator" % (D, P, cls),
+        res.append(("viol", "resid:%s:%s:%s:own_operator%s" % (D, P, cls, ":second_integration_of_one_object" if job.get("warm") else ""),
                     "|L.A - div|/|div| = %.3g with the library's operator, solver tolerance %.3g (reported %.3g after %d iterations)"
                     % (r_code, tol, errv, iters), None))
     else:
-        res.append(("ok", "", "", ("resid", D, P, "own_operator:" + cls)))
+        res.append(("ok", "", "", ("resid", D, P, "own_operator:" + cls + (":second_integration" if job.get("warm") else ""))))
     mc = ev_by(events, "multicol", "m")
     if mc is not None:
         # what is written: values of the solution at the bin edges lower + i*width, 14 significant digits
